@@ -33,7 +33,7 @@ var (
 )
 
 func c16Gen(rng *rand.Rand, idx int) c16Scenario {
-	sc := c16Scenario{Idx: idx, Build: pick(rng, []string{"order", "order", "sub-first", "flip-root", "remove-root", "restore"})}
+	sc := c16Scenario{Idx: idx, Build: pick(rng, []string{"order", "order", "sub-first", "flip-root", "remove-root", "restore", "move-root", "move-root"})}
 	// root-path services
 	n := 0
 	for _, h := range c16Hosts {
@@ -117,6 +117,48 @@ func c16Run(t *testing.T, run *Run, sc c16Scenario, rng *rand.Rand) {
 	order := rng.Perm(len(sc.Services))
 	switch sc.Build {
 	case "sub-first":
+		sort.SliceStable(order, func(a, b int) bool { return !isRoot(sc.Services[order[a]]) && isRoot(sc.Services[order[b]]) })
+	}
+	if sc.Build == "move-root" {
+		// a TLS root service first lives on the host of a sub-path service that has no root service
+		// in the final table (so the sub-path service inherits TLS for a while), then moves to its
+		// final hosts; "shrink" variant: it first has both host lists
+		var movers []c16Service
+		for _, r := range sc.Services {
+			if !isRoot(r) || (r.TLS != "static" && r.TLS != "static-noredirect") || r.Hosts[0] == "" {
+				continue
+			}
+			for _, sub := range sc.Services {
+				if isRoot(sub) || sub.Hosts[0] == "" {
+					continue
+				}
+				free := true
+				for _, o := range sc.Services {
+					if isRoot(o) && contains(o.Hosts, sub.Hosts[0]) {
+						free = false
+					}
+				}
+				if free {
+					tmp := r
+					tmp.Hosts = []string{sub.Hosts[0]}
+					if rng.IntN(2) == 0 {
+						tmp.Hosts = append(tmp.Hosts, r.Hosts...)
+					}
+					movers = append(movers, tmp)
+					break
+				}
+			}
+		}
+		seen := map[string]bool{}
+		for _, m := range movers {
+			if !seen[m.Name] && !seen[m.Hosts[0]] {
+				seen[m.Name], seen[m.Hosts[0]] = true, true
+				if !deploy(m) {
+					return
+				}
+			}
+		}
+		// sub-path services next, then everything (the movers get their final hosts)
 		sort.SliceStable(order, func(a, b int) bool { return !isRoot(sc.Services[order[a]]) && isRoot(sc.Services[order[b]]) })
 	}
 	for _, i := range order {
